@@ -3,7 +3,7 @@
 From Coq Require Import List NArith Bool.
 Import ListNotations.
 Require Import Verif.Lib.Wire Verif.Lib.Text Verif.Lib.PathNorm Verif.Lib.C16Posix
-               Verif.Gen.Facts_C16 Verif.Model.C16 Verif.Proofs.C16.
+               Verif.Gen.Facts_C16 Verif.Model.C16 Verif.Proofs.C16 Verif.Proofs.C16_b.
 Open Scope N_scope.
 
 (* the regenerated constants the other theorems are stated over have the
@@ -63,9 +63,47 @@ Theorem C16_variant_acceptable : forall c rq pi fs t body enc vary fm' log,
 Proof. exact variant_acceptable. Qed.
 Print Assumptions C16_variant_acceptable.
 
-(* TODO (unproved): serves_designated_file -- forall c rq fs (wf, root a directory),
-   conforms (response of run_request) (spec_response c rq fs) = true.  The executable
-   [conforms]/[spec_response] are evaluated on every correspondence case for the model
-   (flag in the runner output) and for the implementation (spec_holds).
-   TODO (unproved): containment for package-relative roots (pkg_resources path join);
-   covered by the correspondence run only. *)
+(* containment for both kinds of root.  [wf c] = wf_fs c (absolute NUL-free docroot) or
+   wf_pkg c (package-relative root: the package directory is a normalised absolute
+   path, the docroot is a relative path of plain names -- trailing or doubled
+   slashes allowed --, joined as pkg_resources' _fn does); in both cases index is a
+   plain name and extensions contain no '/'.  The root must be an existing directory *)
+Theorem C16_containment : forall c fs rqs,
+  wf c -> root_is_dir c fs ->
+  Forall (fun rl => contained c (snd rl) = true) (run_model c fs rqs).
+Proof. exact containment. Qed.
+Print Assumptions C16_containment.
+
+(* serves_designated_file: for every sequence of requests handled by one view
+   instance (any filemap history, reload on or off), every mounting, both kinds
+   of root, every file system and Accept-Encoding answer, each response is one
+   the declarative specification allows: undecodable path -> Unicode decode
+   error; path not below the mount point or with a segment that cannot name a
+   file (NUL) -> 404; designated directory -> its index file if the decoded path
+   ends with '/', else 301 to path_url + '/' (+ '?' + query string); otherwise
+   the content of the designated file or of a smallest acceptable existing
+   variant, labelled with its encoding; nothing acceptable exists -> 404.
+   [decodable]: for the mounting that is handed request.subpath directly, PATH_INFO
+   must be decodable (a router would have rejected it before).  [host_ok]: host_url
+   does not end in '/', and '/' is in WebOb's PATH_SAFE.  Where the designated
+   name or a variant is a directory the specification is silent (SUnspec) *)
+Theorem C16_serves_designated_file : forall c fs rqs,
+  wf c -> root_is_dir c fs -> host_ok c -> Forall (decodable c) rqs ->
+  Forall (fun x => conforms (fst (snd x)) (spec_response c (fst x) fs) = true)
+         (combine rqs (run_model c fs rqs)).
+Proof. exact serves_designated_file. Qed.
+Print Assumptions C16_serves_designated_file.
+
+(* filemap transparency: whatever the view instance has cached from this file
+   system (reload on or off), every answer of a request sequence equals the
+   answer a fresh instance gives to that request alone.  No hypothesis on the
+   configuration, the file system or the requests *)
+Theorem C16_filemap_transparent : forall c fs rqs fm,
+  fm_exact c fs fm ->
+  map fst (run_requests c fs fm rqs) = map (fun rq => fst (fst (run_request c fs [] rq))) rqs.
+Proof. exact filemap_transparent. Qed.
+Print Assumptions C16_filemap_transparent.
+
+Theorem C16_filemap_fresh_exact : forall c fs, fm_exact c fs [].
+Proof. exact fm_exact_nil. Qed.
+Print Assumptions C16_filemap_fresh_exact.
